@@ -6,7 +6,7 @@ DRIVER = "drv_tensor"
 DRIVER_MODULE = "Driver.Tensor"
 PROPS = "RlibModel.Props.C19"
 PROFILES = ["release"]
-SHRINK_SEP = None
+SHRINK_SEP = ";"
 RULE = ("cases: every shape of rank 0..4 with extents 1..5 (rank 4: extents <= 4 in the quick tier): every valid index and every index out of range in exactly one dimension with the other coordinates "
         "ranging over all valid values: get_index, and - independently of each other, on tensors built by from_vec / from_slice / new / read - t[idx] and "
         "t[idx]=v followed by a comparison of every cell with its old value (an aliasing write shows as a foreign cell); out-of-range values: quick d, d+1 "
@@ -15,13 +15,19 @@ RULE = ("cases: every shape of rank 0..4 with extents 1..5 (rank 4: extents <= 4
         "with length n, n+1, n-1, 0, new, read, plus 17 shapes with extents up to usize::MAX whose product does not fit usize (must be rejected: "
         "panic:overflow in the checked build) or fits but is far from the length; == over all pairs of equal-rank shapes with equal element count (same data), same shape with one "
         "element changed, different counts; Writable bytes and Writer -> bytes -> chunked Reader -> Tensor::read round trip for i64 (incl. MIN/MAX) "
-        "and String elements; {:?} output of i64 tensors. non-trivial = distinct in-domain case whose shape has more than one element")
+        "and String elements; {:?} output of i64 tensors; histories `h D ; op ; …` over four Tensor<i64, D> variables (ranks 0..4): clone(), and clone_from for EVERY ordered pair of small shapes "
+        "(same shape / another shape with the same element count / another count; rank 1 extents <= 6, rank 2 <= 4, rank 3 <= 3, rank 4 <= 2 in the quick tier), each followed by dims(), ==, iter, "
+        "t[idx] / get_index / t[idx]=v at the last and a random valid index and at an index out of range in each dimension - for the source's shape and for the overwritten "
+        "variable's old shape -, dim(i) for i in and out of range, Writable bytes, a write to the copy, the source afterwards, and clone_from back; plus 2500 (thorough 60000) random histories mixing all ops "
+        "over shapes that are permutations of each other; a failing history is shrunk op by op. non-trivial = distinct in-domain case whose shape has more than one element")
 ASSUMPTIONS = [
     "the Lean model of rlib_tensor is hand-written; it is tied to the code by running both on the same cases",
     "Tensor<T, D> needs the rank at compile time: the correspondence covers ranks 0..4 (the theorems cover every rank)",
     "usize arithmetic is modelled as the checked build executes it (overflow = panic): get_index through getIndexU, the constructors' product through prodU; "
     "an unchecked build wraps instead (from_vec([2^32, 2^32], vec![]) is accepted there) - outside the property's stated quantifier, see docs/notes/C19.md",
     "element rendering/parsing (i64, String) is rlib_io's (C08/C09); the model takes the rendering of an element as a parameter",
+    "Clone is modelled with value semantics (clone = same shape and elements; clone_from = the trait default `*self = source.clone()`); histories are run on Tensor<i64, D> "
+    "with four variables; the spec side of a history (stepSpec) is proved equal to the model side for every history (hist_spec)",
 ]
 MANIFEST = {
     "level": "proof",
@@ -31,7 +37,9 @@ MANIFEST = {
              "within product rounds and emits the elements in storage order separated by one blank inside the last dimension and by k newlines where "
              "k trailing blocks end; tokenising the written text gives the elements back, so write -> read is the identity; == holds iff shape and "
              "elements agree; with every usize operation checked, get_index never overflows when the product fits usize and the constructors reject every "
-             "shape whose product does not; the Debug output is the same walk with bracket separators. The hand-written model is tied to rlib_tensor by a differential correspondence run on every check."),
+             "shape whose product does not; the Debug output is the same walk with bracket separators; clone / clone_from have value semantics (after a.clone_from(&b), whatever a was, "
+             "a has b's shape and elements: indexing, ==, iteration and output are b's), dim(i) is the i-th extent, and every history of constructor / clone / clone_from / == / "
+             "indexing / write / iter / output steps over several tensors shows exactly what the row-major specification says. The hand-written model is tied to rlib_tensor by a differential correspondence run on every check."),
     "note": ("Trusted: Lean kernel, axioms propext/Classical.choice/Quot.sound, the hand-written model (checked against the code on the generated cases "
              "only, ranks 0..4, extents <= 5), harness and driver plumbing. Unchecked (wrapping) usize arithmetic is outside the model."),
     "technique": "Lean 4 proof of a hand-written model + differential correspondence check against the Rust crate",
@@ -42,6 +50,8 @@ MANIFEST = {
 def nontrivial(case, rec):
     toks = case.split()
     op = toks[0]
+    if op == "h":
+        return " cf " in case or " cl " in case
     try:
         d = {"ctor": 2, "write": 2, "rt": 3}.get(op, 1)
         dims = [] if toks[d] == "-" else [int(x) for x in toks[d].split(",")]
